@@ -6,9 +6,11 @@ V = Path(__file__).resolve().parent.parent
 props = [json.loads(l) for l in (V / "properties.jsonl").read_text().splitlines() if l.strip()]
 checks, na = [], []
 pending = json.loads((V / "manifest.d" / "_not_applicable.json").read_text())
+vf = V / "manifest.d" / "_verified.txt"
+verified = set(vf.read_text().split()) if vf.exists() else None
 for p in props:
     f = V / "manifest.d" / f"{p['id']}.json"
-    if f.exists():
+    if f.exists() and (verified is None or p["id"] in verified):
         c = json.loads(f.read_text())
         pid = p["id"]
         c.setdefault("property_id", pid)
